@@ -37,6 +37,12 @@ def with_sensors(d):
 def cases(tier, seed):
     defs = space.family_bind(tier, with_sensors=True)
     defs += [with_sensors(d) for d in space.family_ops("quick") if len(d["state"]) == 2][:: (1 if tier == "thorough" else 4)]
+    # filters whose sensors have the same shapes (m == n twice, m != n) alive together, updates alternated between them
+    inter = [space.bind_def(2, 0, 1, order=0, sensors_shape=(2, 1)), space.bind_def(2, 1, 0, order=1, sensors_shape=(2,), tag="-twin"),
+             space.bind_def(3, 1, 1, order=2, sensors_shape=(3, 2)), space.bind_def(3, 0, 0, order=3, sensors_shape=(1, 3))]
+    inter[1]["snoise"] = [[k_, [[r_, v_ * 4.0 + 0.125] for r_, v_ in rs_]] for k_, rs_ in inter[1]["snoise"]]
+    yield {"kind": "interleave", "defs": inter, "seed": seed}
+    yield {"kind": "interleave", "defs": list(reversed(inter)), "seed": seed}
     for d in defs:
         n = len(d["state"])
         for pname, P in cov_menu(n, tier):
@@ -46,6 +52,11 @@ def cases(tier, seed):
 
 
 def eval_case(case):
+    if case.get("kind") == "interleave":
+        from fv import ekfcheck
+        n, fails = ekfcheck.interleave(case["defs"], case["seed"], "update")
+        return {"n": n, "fails": fails, "sig": "interleave", "outcomes": ["evaluated", "interleaved"],
+                "sample": {"kind": "interleave", "filters": [d_["name"] for d_ in case["defs"]], "calls": n}}
     d = case["def"]
     ref = RefEKF(d)
     fails = []
@@ -146,4 +157,4 @@ def eval_case(case):
                        "snoise": d["snoise"], "updates": n}}
 
 
-REQUIRED_OUTCOMES = ["evaluated"]
+REQUIRED_OUTCOMES = ["evaluated", "interleaved"]
